@@ -196,8 +196,24 @@ func BuildBed(dir string, progs []BedProgram) ([]string, error) {
 		tj, _ := json.Marshal(texts)
 		fmt.Fprintf(&regBody, "\tdriver.RegisterProgram(%d, %q, mustTexts(%q))\n", k, string(mj), string(tj))
 
+		// only files reachable from the root through includes are compiled by -r
+		reach := map[int]bool{}
+		var mark func(i int)
+		mark = func(i int) {
+			if reach[i] {
+				return
+			}
+			reach[i] = true
+			for _, j := range bp.P.Files[i].Includes {
+				mark(j)
+			}
+		}
+		mark(len(bp.P.Files) - 1)
 		pkgs := map[int]*bedPkg{}
 		for fi, f := range bp.P.Files {
+			if !reach[fi] {
+				continue
+			}
 			pdir := filepath.Join(out, filepath.FromSlash(goPkgDir(f)))
 			if _, err := os.Stat(pdir); err != nil {
 				if len(f.Decls) > 0 {
